@@ -186,7 +186,7 @@ Proof. repeat split; vm_compute; reflexivity. Qed.
 Definition ex_tempo : list event :=
   [EWaitBegin None; EAdd 1 1%Z; ENotify SSched; EWaitEnd CNotified; ETime 0; ETime 0;
    EWaitBegin (Some (1 # 2));
-   ETempo (mkTM 4 (1 # 4) (1 # 2));
+   ETempo (mkTM 4 (1 # 4) (1 # 2)); ENotify STempo;
    EWaitEnd CNotified; ETime (1 # 4); ETime (1 # 4); EWaitBegin (Some (1 # 8));
    EWaitEnd CTimeout; ETime (3 # 8); EPop 1 1%Z; EAwakeEnd 1%Z ROther; EWaitBegin None].
 Example ex_tempo_accepted :
@@ -194,6 +194,17 @@ Example ex_tempo_accepted :
   mon_never_early (mkTM 2 0 0) None ex_tempo = true /\
   mon_no_oversleep (init KTempo (mkTM 2 0 0)) ex_tempo = true.
 Proof. repeat split; vm_compute; reflexivity. Qed.
+
+(* a tempo change that is not followed by the notify of the clock's condition (whoever the caller
+   is: the clock's own task, a task of another clock, any other thread) is not a behaviour *)
+Example ex_tempo_without_notify_rejected :
+  accepts KTempo (mkTM 2 0 0)
+    [EWaitBegin None; EAdd 1 1%Z; ENotify SSched; EWaitEnd CNotified; ETime 0; ETime 0;
+     EWaitBegin (Some (1 # 2)); ETempo (mkTM 4 (1 # 4) (1 # 2)); EWaitEnd CTimeout] = false /\
+  mon_notify [] 0
+    [EWaitBegin None; EAdd 1 1%Z; ENotify SSched; EWaitEnd CNotified; ETime 0; ETime 0;
+     EWaitBegin (Some (1 # 2)); ETempo (mkTM 4 (1 # 4) (1 # 2)); EWaitEnd CTimeout] = false.
+Proof. split; vm_compute; reflexivity. Qed.
 
 (* the hypotheses of ready_popped_in_time_then_fifo_order and of the resched step are met *)
 Example ex_pop_step :
